@@ -17,3 +17,8 @@ TRUSTED = [t.replace('c03', 'c04') for t in TRUSTED]
 
 def gen(rng, tier):
     return base.gen_cases(rng, tier, 'integ')
+
+
+# ---- extraction cross-check: the same cases evaluated inside Coq by vm_compute (the hook of c03.py: same driver,
+# same wire format; coq/Extract/P04.v defines the same instances as P03.v)
+from tools.props.c03 import coq_term, encode_result, COQ_IMPORTS, XCHECK_N   # noqa: F401,E402
